@@ -79,6 +79,55 @@ fn world_out(out: &mut ScnOut, w: &mut World, nontrivial: bool, sig_extra: u64, 
     out.violations.extend(std::mem::take(&mut w.violations));
 }
 
+/// Endpoint-level part of C01: everything an application is handed was submitted by the peer on
+/// the same address pair, and is handed over at most once.
+fn check_payloads(w: &mut World) {
+    use std::collections::HashSet;
+    // what each side submitted, by address
+    let mut by_client: HashMap<SocketAddr, HashSet<(u64, usize)>> = HashMap::new();
+    for c in w.clients.iter() {
+        let set = by_client.entry(c.addr).or_default();
+        for e in c.events.iter() {
+            if let Ev::AppSend(h, l, _) = e.ev {
+                set.insert((h, l));
+            }
+        }
+    }
+    let mut by_server: HashMap<SocketAddr, HashSet<(u64, usize)>> = HashMap::new();
+    for (a, e) in w.server.events.iter() {
+        if let Ev::AppSend(h, l, _) = e.ev {
+            by_server.entry(*a).or_default().insert((h, l));
+        }
+    }
+    let mut seen: HashSet<(SocketAddr, u64)> = HashSet::new();
+    let sev: Vec<(SocketAddr, EvRec)> = w.server.events.clone();
+    for (a, e) in sev.iter() {
+        if let Ev::Receive(h, l) = e.ev {
+            w.c.inc("ep_receives_checked");
+            if !by_client.get(a).map_or(false, |s| s.contains(&(h, l))) {
+                w.viol("C01", "ep-delivered-unknown", format!("server handed the application a {}-byte packet from {} at t={} ms that no client at that address submitted", l, a, e.t_ns / MS));
+            } else if !seen.insert((*a, h)) {
+                w.viol("C01", "ep-delivered-twice", format!("server handed the application the same {}-byte packet from {} a second time at t={} ms", l, a, e.t_ns / MS));
+            }
+        }
+    }
+    for i in 0..w.clients.len() {
+        let addr = w.clients[i].addr;
+        let evs = w.clients[i].events.clone();
+        let mut mine: HashSet<u64> = HashSet::new();
+        for e in evs.iter() {
+            if let Ev::Receive(h, l) = e.ev {
+                w.c.inc("ep_receives_checked");
+                if !by_server.get(&addr).map_or(false, |s| s.contains(&(h, l))) {
+                    w.viol("C01", "ep-delivered-unknown", format!("client {} ({}) was handed a {}-byte packet at t={} ms that the server never submitted for that address", i, addr, l, e.t_ns / MS));
+                } else if !mine.insert(h) {
+                    w.viol("C01", "ep-delivered-twice", format!("client {} ({}) was handed the same {}-byte packet a second time at t={} ms", i, addr, l, e.t_ns / MS));
+                }
+            }
+        }
+    }
+}
+
 fn history_sample(w: &World, note: &str) -> J {
     let mut evs = Vec::new();
     for (a, e) in w.server.events.iter().take(14) {
@@ -284,7 +333,11 @@ pub fn run_lifecycle(seed: u64, params: &Params, out: &mut ScnOut) {
         world_out(out, &mut w, false, 0, None);
         return;
     }
-    let horizon = fault_ns + rng.range(30, 90) * SEC;
+    let mut horizon = fault_ns + rng.range(30, 90) * SEC;
+    if params.flag("miri") {
+        // the interpreter manages ~10 endpoint steps per second
+        horizon = horizon.min(6 * SEC);
+    }
     // per address: the live client slot (reconnects reuse the address)
     let mut live: Vec<Option<usize>> = vec![None; n_clients];
     let mut reconnect_at: Vec<Option<u64>> = (0..n_clients).map(|k| Some(rng.range(0, 2000) * MS * k as u64 / n_clients.max(1) as u64)).collect();
@@ -398,6 +451,7 @@ pub fn run_lifecycle(seed: u64, params: &Params, out: &mut ScnOut) {
         }
     }
     let t_end = w.now_ns;
+    check_payloads(&mut w);
     let mut nontrivial_c09 = false;
     for ci in 0..w.clients.len() {
         if check_disconnect(&mut w, ci, t_end) {
@@ -664,6 +718,7 @@ fn run_handshake_once(plan: &HsPlan, forge: bool, verbose: bool) -> (World, Vec<
     }
     check_handshake_events(&mut w);
     check_starting_ids(&mut w);
+    check_payloads(&mut w);
     let h = app_history(&w);
     (w, h)
 }
@@ -1520,6 +1575,7 @@ pub fn run_disconnect(seed: u64, params: &Params, out: &mut ScnOut) {
         }
     }
     let t_end = w.now_ns;
+    check_payloads(&mut w);
     let nt = check_disconnect(&mut w, ci, t_end);
     let nontrivial = nt && w.c.get("fate_drop") > 0 || w.c.get("c09_disconnect_exchanges") > 0 && n_queue > 0;
     let sample = if seed % 61 == 0 { Some(history_sample(&w, &format!("disconnect(): caller {} with {} packets queued (<= {} bytes), both_call {}", if caller_is_client { "client" } else { "server" }, n_queue, size_max, both_call))) } else { None };
